@@ -1105,6 +1105,40 @@ fn midpoint(a: Fixed, b: Fixed) -> Fixed {
     a + half(b - a)
 }
 
+#[cfg(googlefonts_fontations_verif)]
+pub(crate) mod verif_hooks {
+    //! Direct entry to `HintMap::insert` for the out-of-tree verification
+    //! harness. Compiled only with `--cfg googlefonts_fontations_verif`;
+    //! adds no behaviour.
+    use super::{Fixed, Hint, HintMap};
+    use alloc::vec::Vec;
+
+    /// Runs `HintMap::new(scale)` followed by one `insert(bottom, top, None)`
+    /// per element of `ops` (`[flags, cs_coord bits, ds_coord bits]` of the
+    /// bottom hint, then of the top hint) and returns the active edges as
+    /// `[flags, cs_coord bits, ds_coord bits]`.
+    pub fn cff_hint_map_inserts(scale_bits: i32, ops: &[[i32; 6]]) -> Vec<[i32; 3]> {
+        let scale = Fixed::from_bits(scale_bits);
+        let mut map = HintMap::new(scale);
+        let hint = |flags: i32, cs: i32, ds: i32| Hint {
+            flags: flags as u8,
+            index: 0,
+            cs_coord: Fixed::from_bits(cs),
+            ds_coord: Fixed::from_bits(ds),
+            scale,
+        };
+        for op in ops {
+            let bottom = hint(op[0], op[1], op[2]);
+            let top = hint(op[3], op[4], op[5]);
+            map.insert(&bottom, &top, None);
+        }
+        map.edges[..map.len]
+            .iter()
+            .map(|e| [e.flags as i32, e.cs_coord.to_bits(), e.ds_coord.to_bits()])
+            .collect()
+    }
+}
+
 #[cfg(test)]
 mod tests {
     use read_fonts::{tables::postscript::charstring::CommandSink, types::F2Dot14, FontRef};
